@@ -228,6 +228,11 @@ impl Harness {
                     "bnd" => cpu.verif_try_interrupt().map(|_| "ok".to_string()).map_err(|_| "err".to_string()),
                     "int" => cpu.verif_interrupt(hx(f[1]) as u8).map(|_| "ok".to_string()).map_err(|_| "err".to_string()),
                     "tick" => cpu.verif_update_modules(hx(f[1]) as u8).map(|_| "ok".to_string()).map_err(|_| "err".to_string()),
+                    "ss" => {
+                        // the state count so far (the time base of the ioport stamps), set from outside
+                        cpu.verif_set_state_sum(hx(f[1]) as usize);
+                        Ok("ok".to_string())
+                    }
                     "w8" => cpu.bus.write(hx(f[1]) as u32, hx(f[2]) as u8).map(|_| "ok".to_string()).map_err(|_| "err".to_string()),
                     "r8" => cpu.bus.read(hx(f[1]) as u32).map(|v| format!("ok:{:x}", v)).map_err(|_| "err".to_string()),
                     "w16" => cpu.verif_mem_write(2, hx(f[1]) as u32, hx(f[2]) as u32).map(|_| "ok".to_string()).map_err(|_| "err".to_string()),
